@@ -48,6 +48,9 @@ def plan(tier, seed):
 		tasks.append(('t_large', dict(part=part, nparts=4, tier=tier)))
 	for da in DTYPES:
 		tasks.append(('t_skewed', dict(da=da, tier=tier)))
+	top = 17 if tier == 'quick' else 20
+	for part in range(16):
+		tasks.append(('t_ratio_sweep', dict(part=part, nparts=16, top=top)))
 	return tasks
 
 
@@ -69,14 +72,21 @@ def check_pair(sh, A, B, da, db, full=True):
 		sh.violation('jaccarddist', dict(A=list(A), B=list(B), da=da, db=db), exp, gb)
 		return
 	if full and (len(A) + len(B)) % 3 == 0:
-		# the same sets as non-contiguous views (every other element of a padded array) and as views into a larger buffer
-		pa = np.zeros(2 * len(A) + 1, dtype=da); pa[1::2] = A
-		pb = np.zeros(len(B) + 4, dtype=db); pb[2:2 + len(B)] = B
-		gv = f32bits(jaccarddist(pa[1::2], pb[2:2 + len(B)]))
-		sh.evals += 1
-		if gv != exp:
-			sh.violation('jaccarddist-strided-view', dict(A=list(A), B=list(B), da=da, db=db), exp, gv)
-			return
+		# the same sets as non-contiguous views: each argument in turn (and both) as every 2nd / 3rd element of a padded array, as a slice
+		# at an offset of a larger buffer, and as the reversed view of a descending array (negative stride)
+		def views(X, dt):
+			p2 = np.full(2 * len(X) + 1, 7, dtype=dt); p2[1::2] = X
+			p3 = np.full(3 * len(X) + 2, 9, dtype=dt); p3[2::3] = X
+			po = np.full(len(X) + 4, 5, dtype=dt); po[2:2 + len(X)] = X
+			pr = np.array(list(X)[::-1], dtype=dt)
+			return dict(stride2=p2[1::2], stride3=p3[2::3], offset=po[2:2 + len(X)], reversed=pr[::-1])
+		va, vb = views(A, da), views(B, db)
+		for ka, kb in (('stride2', 'offset'), ('offset', 'stride2'), ('stride2', 'stride3'), ('reversed', 'offset'), ('offset', 'reversed'), ('stride3', 'reversed')):
+			gv = f32bits(jaccarddist(va[ka] if ka != 'plain' else a, vb[kb]))
+			sh.evals += 1
+			if gv != exp:
+				sh.violation('jaccarddist-strided-view', dict(A=list(A), B=list(B), da=da, db=db, view_of_A=ka, view_of_B=kb), exp, gv)
+				return
 		sh.count('strided_or_offset_views')
 	if full:
 		j = jaccard(a, b)
@@ -228,6 +238,51 @@ def t_large(part, nparts, tier):
 	return sh
 
 
+SWEEP = ['A-has-1-more', 'each-has-1', 'A-has-1-B-has-2', 'share-1', 'share-2']
+
+
+def sweep_pair(base, u, pat):
+	"""Contiguous slices of one increasing array with |A u B| = u and a symmetric difference (or an intersection) of 1..3 elements."""
+	if pat == 'A-has-1-more':
+		return base[:u], base[1:u], 1
+	if pat == 'each-has-1':
+		return base[:u - 1], base[1:u], 2
+	if pat == 'A-has-1-B-has-2':
+		return base[:u - 2], base[1:u], 3
+	c = 1 if pat == 'share-1' else 2
+	h = (u - c) // 2
+	return base[:h + c], base[h:u], u - c
+
+
+def t_ratio_sweep(part, nparts, top, only=None):
+	"""EVERY union size u from 4 to 2^top with a symmetric difference of 1, 2, 3 elements and with an intersection of 1, 2 elements: the
+	ratios nearest to 0 and to 1, where a value computed through the complement, in another precision or with a second rounding is off by
+	one unit in the last place for particular u only.  Expected: the exact fraction rounded once."""
+	import numpy as np
+	from gambit.metric import jaccarddist
+	sh = Shard()
+	N = 1 << top
+	bases = {dt: np.arange(7, 7 + N, dtype=dt) for dt in ('u4', 'i8')}
+	for u in range(4 + part, N + 1, nparts):
+		for pi, pat in enumerate(SWEEP):
+			if only is not None and (u, pat) != only:
+				continue
+			da, db = (('u4', 'u4'), ('i8', 'u4'), ('u4', 'i8'), ('i8', 'i8'))[(u + pi) % 4]
+			A, _, s_ = sweep_pair(bases[da], u, pat)
+			_, B, _ = sweep_pair(bases[db], u, pat)
+			got = f32bits(jaccarddist(A, B))
+			sh.evals += 1
+			exp = R.f32_bits_of_fraction(Fraction(s_, u))
+			if got != exp:
+				sh.violation('jaccarddist-ratio-sweep', dict(sweep=True, union=u, pattern=pat, symmetric_difference=s_, da=da, db=db), exp, got)
+				if sh.nviol > 20:
+					return sh
+			sh.nontrivial += 1
+	sh.count('ratio_sweep_pairs', sh.evals)
+	sh.sample(dict(family='ratio-sweep', top=top, part=part, patterns=SWEEP))
+	return sh
+
+
 def t_reject():
 	sh = Shard()
 	import numpy as np
@@ -275,6 +330,10 @@ def finalize(agg, tier):
 
 
 def replay(case, kind=None):
+	if case.get('sweep'):
+		u = case['union']
+		top = max(17, (u - 1).bit_length())
+		return t_ratio_sweep(0, 1, top, only=(u, case['pattern'])).violations[:1]
 	sh = Shard()
 	if 'place' in case:
 		import numpy as np
